@@ -280,6 +280,10 @@ def run(pm, ctx):
     run_decisions(pm, ctx, 'C12-RD', OWN['C12'])
     from .. import exprdrift
     exprdrift.run(pm, ctx, 'C12-RE', OWN['C12'])
+    from ..conddrift import run_calls
+    run_calls(pm, ctx, 'C12-RC', OWN['C12'])
+    from .. import memo
+    memo.run(pm, ctx, 'C12-MK', OWN['C12'])
 
 
 def _raw_unordered(ot, f, e, at):
